@@ -78,6 +78,12 @@ class Check:
         self.exhaustive = None
         self.rule = ""
         self.findings = [f for f in load_findings() if f.get("property") == pid]
+        import glob
+        for old in glob.glob(os.path.join(VERIF, "replays", "%s-%s-*.json" % (pid, self.tier))):
+            try:
+                os.remove(old)
+            except OSError:
+                pass
         self.thorough = self.tier == "thorough"
 
     # ---- accumulation -------------------------------------------------
